@@ -142,14 +142,14 @@ fn run_one(cmd: &str, input: &[u8]) -> String {
     }
     "relocate" => {
       // input: JSON {"dir": scratch directory, "docs": [[doc,..],..] (one commit each), "more": [doc,..], "query": text}
-      // an index is built on the file system at <dir>/a, the directory is copied to <dir>/b, and the COPY is searched,
+      // an index is built on the file system at <dir>/a (or <dir>/<orig>), the directory is copied to <dir>/b (or <dir>/<copy>), and the COPY is searched,
       // written to, committed and compacted.  Reported: the files of <dir>/a (name, length, crc) before and after, the
       // hits of a, of the copy before its own writes, of the copy after <dir>/a has been deleted altogether.
       let v: serde_json::Value = match serde_json::from_slice(input) { Ok(v) => v, Err(e) => return format!("ERR bad json {}", e) };
       let base = PathBuf::from(v["dir"].as_str().unwrap_or(""));
       if base.as_os_str().is_empty() { return "ERR no dir".to_string(); }
-      let a = base.join("a");
-      let b = base.join("b");
+      let a = base.join(v["orig"].as_str().unwrap_or("a"));
+      let b = base.join(v["copy"].as_str().unwrap_or("b"));
       let _ = std::fs::remove_dir_all(&base);
       if let Err(e) = std::fs::create_dir_all(&a) { return format!("ERR mkdir {}", e); }
       let mk = |p: &PathBuf| searchlite_core::api::types::IndexOptions {
